@@ -212,9 +212,16 @@ class Client:
                 data = inst.data
                 break
             except Literal as inst:
-                resp += self.__read_block(inst.value)
-                if not resp.endswith(CRLF):
-                    resp += self.__read_line() + CRLF
+                block = self.__read_block(inst.value)
+                if not block.endswith(CRLF):
+                    rest = self.__read_line()
+                    if len(rest):
+                        # a string followed by something else on its
+                        # line (a script name and ACTIVE): keep them apart
+                        block = block.replace(b"\\", b"\\\\").replace(b'"', b'\\"')
+                        block = b'"' + block + b'"'
+                    block += rest + CRLF
+                resp += block
                 continue
             if not len(line):
                 continue
